@@ -76,7 +76,10 @@ fn generate_trait_for_impl<'db>(
         .leading_trivia(db)
         .as_syntax_node()
         .get_text(db);
+    // The indentation is the whitespace ending the trivia (anything else there, e.g. skipped tokens, is
+    // not part of it).
     let extra_ident = leading_trivia.split('\n').next_back().unwrap_or_default();
+    let extra_ident = &extra_ident[extra_ident.trim_end_matches([' ', '\t']).len()..];
     for attr_arg in attr.structurize(db).args {
         match attr_arg.variant {
             AttributeArgVariant::Unnamed(ast::Expr::FunctionCall(attr_arg))
